@@ -1906,6 +1906,9 @@ class GenObj:
     def __init__(self, seed_desc):
         GenObj._count[0] += 1
         self.id = GenObj._count[0]
+        if is_z3(seed_desc) or is_conc(seed_desc):
+            # an integer seed determines the stream: two generators built from the same seed produce the same draws
+            self.id = "seed:" + (seed_desc.sexpr() if is_z3(seed_desc) else str(seed_desc))
         self.seed_desc = seed_desc
         self.draws = 0
 
